@@ -27,7 +27,8 @@ RULE = ("random fonts (line / quadratic contours incl. contours starting off-cur
         "the declarative predicate (sub-list of the rounded source points; expanded outline = expanded source outline within 1/2; nothing impliable left); "
         "non-trivial = a point was dropped.  Joint (n/12 more designspaces): 2-3 point-compatible masters of 1-3 glyphs, the same slots in every master, "
         "a slot that is a midpoint in one master is off the midpoint in another with probability 0.35; the default master is any of them; 8% (search: 25%) "
-        "with one master's flags changed (incompatible); through compileVariableTTF(dropImpliedOnCurves=True, convertCubics=False): the variable font's "
+        "with one master's flags changed (incompatible); through compileVariableTTF(dropImpliedOnCurves=True, convertCubics=False) - every third designspace instead with the default options (convertCubics=True: "
+        "fonts_to_quadratic), the masters then being the implementation's own compileInterpolatableTTFsFromDS output (unrounded, undropped) -: the variable font's "
         "default glyf entry per glyph compared with the model (`vfDefault`) and judged by `holdsJoint` (the default master's outline within rounding; the "
         "point set left fits EVERY master); every gvar tuple must address exactly the points left + 4.")
 ASSUMED = ["cu2qu (curve_to_quadratic) is external: its error bound is measured on the pre-processor's un-rounded output, not proved",
